@@ -47,17 +47,19 @@ def check(repo, tier):
              'U diag(1/s) W with exactly one inverse of the singular values of psi_x; returned tensors satisfy the class invariant (row_dims updated)')
     run.rule('D3', 'the relative cut s / s[0] > threshold is used for the HOSVD and for the reduced matrix')
     run.trusted = ['NumPy/SciPy transfer functions']
-    run.bounds = 'two modes with 2-3 basis functions, one or two index-set pairs, all (ef_tf, st_tf) combinations; HOSVD and HOCUR variants (HOCUR itself replaced by a symbolic tensor train)'
+    run.bounds = ('one to three modes' if tier == 'thorough' else 'two modes') + ' with 2-3 basis functions, ' + ('one to three' if tier == 'thorough' else 'one or two') + ' index-set pairs, all (ef_tf, st_tf) combinations; HOSVD and HOCUR variants (HOCUR itself replaced by a symbolic tensor train)'
 
     def F(qual, rule, what, msg):
         fn = repo.fn(qual)
         return Finding('C18', rule, fn.where, what, msg, fn.file, fn.node.lineno)
     mods = {MOD, 'utils'}
-    for variant, npairs, (ef, st) in itertools.product(('amuset_hosvd', 'amuset_hocur'), (1, 2), ((False, False), (True, False), (False, True), (True, True))):
+    big = tier == 'thorough'
+    for variant, npairs, (ef, st), nmodes in itertools.product(('amuset_hosvd', 'amuset_hocur'), (1, 2, 3) if big else (1, 2), ((False, False), (True, False), (False, True), (True, True)),
+                                                            (1, 2, 3) if big else (2,)):
         if variant == 'amuset_hocur' and (ef or st):
             continue
         entry = f'{MOD}.{variant}'
-        scen = f'{variant}({npairs} index-set pair(s)' + (f', ef_tf={ef}, st_tf={st}' if variant == 'amuset_hosvd' else '') + ')'
+        scen = f'{variant}({npairs} index-set pair(s)' + (f', ef_tf={ef}, st_tf={st}' if variant == 'amuset_hosvd' else '') + (f', {nmodes} modes' if nmodes != 2 else '') + ')'
         intercept = {}
         holder = {}
         if variant == 'amuset_hocur':
@@ -74,7 +76,7 @@ def check(repo, tier):
             holder['sc'] = sc
             M = sc.atom('M')
             data = Arr([sc.atom('dd'), M], None, 'real', None, {'role': 'data'}, 'data_matrix')
-            basis = [[BasisFn(0, k) for k in range(3)], [BasisFn(1, k) for k in range(2)]]
+            basis = [[BasisFn(i, k) for k in range(3 - (i % 2))] for i in range(nmodes)]
             xs = [Arr([sc.atom(f'mx{k}')], None, 'int', None, {'role': ('x_indices', k)}, f'x_indices[{k}]') for k in range(npairs)]
             ys = [Arr([xs[k].shape[0]], None, 'int', None, {'role': ('y_indices', k)}, f'y_indices[{k}]') for k in range(npairs)]
             sc.inputs = (xs, ys)
